@@ -18,6 +18,7 @@ def coverage_event(tid, given, kw, sizekw, dedup):
     freqs = [kept[s] for s in strings]
     try:
         full = x.full_incremental_coverage(dedup=dedup)
+        incview = x.incremental_coverage(dedup=dedup)
         cov = x.coverage(dedup=dedup)
         nex, nexu = x.n_examples(), x.n_examples(dedup=True)
     except Exception as ex:
@@ -38,6 +39,7 @@ def coverage_event(tid, given, kw, sizekw, dedup):
     r['store_has_repeated_entries'] = len(x.examples.strings) != len(set(x.examples.strings))
     ev = {'tid': tid, 'mx': mx, 'freq': freqs, 'dedup': bool(dedup), 'res': res,
           'cov': [int(v) for v in cov] + [0] * max(0, len(rexes) - len(cov)), 'ncov': len(cov), 'covdedup': bool(dedup),
+          'incrview': [int(v_) for v_ in incview.values()] if list(incview.keys()) == [t for t, _ in order] else [-1],
           'allmatched': all(any(row[i] for row in mx) for i in range(len(strings))),
           'supplied': sum(freqs), 'supplieduniq': len(strings), 'nexamples': int(nex), 'nexamplesuniq': int(nexu)}
     r['full'] = [(t, tuple(c)) for t, c in order]
@@ -99,6 +101,40 @@ def run(chk):
         chk.coverage['replayed_cases'] += 1
         chk.count_case(json.dumps([str(given), sorted(detail[tid]['options'].items()), sizekw, dedup], default=str),
                        nontrivial=len(r['rex']) > 1)
+        tid += 1
+    # the module-level functions on hand-made, overlapping expressions (an Extractor rarely returns overlapping ones)
+    from tdda.rexpy.rexpy import Examples, rex_coverage, rex_full_incremental_coverage, rex_incremental_coverage
+    PATS = ['^[a-z]+$', '^a.*$', '^.*[0-9]$', '^[a-z]{2}$', '^.+$', '^[0-9]+$', '^ab$', '^[a-z][a-z0-9]$', '^$']
+    EXS = ['ab', 'ac', 'a1', 'b2', '12', 'zz', 'abc', 'a', '', 'A1', 'é']
+    for _ in range(1500 if thorough else 300):
+        pats = rnd.sample(PATS, rnd.randint(1, 4))
+        strings = rnd.sample(EXS, rnd.randint(1, 7))
+        freqs = [rnd.randint(1, 3) for _ in strings]
+        dedup = rnd.random() < 0.5
+        try:
+            exo = Examples(list(strings), list(freqs))
+            cov = rex_coverage(pats, exo, dedup)
+            full = rex_full_incremental_coverage(pats, exo, sort_on_deduped=dedup)
+            incview = rex_incremental_coverage(pats, exo, sort_on_deduped=dedup)
+        except Exception as exn:
+            chk.violation({'kind': 'rex-coverage', 'clause': 'NoError', 'error': type(exn).__name__, 'sampling': False, 'working_sample_only': False},
+                          {'patterns': pats, 'strings': strings, 'freqs': freqs, 'dedup': dedup, 'error': str(exn)[:200]})
+            continue
+        order_ = sorted(range(len(strings)), key=lambda i_: strings[i_])
+        ss = [strings[i_] for i_ in order_]
+        ff = [freqs[i_] for i_ in order_]
+        mx = [[bool(rx.full_match(p_, s_)) for s_ in ss] for p_ in pats]
+        res_ = [{'p': int(c.index) + 1, 'n': int(c.n), 'nuniq': int(c.n_uniq), 'incr': int(c.incr), 'incruniq': int(c.incr_uniq)}
+                for t_, c in full.items()]
+        ev = {'tid': tid, 'mx': mx, 'freq': ff, 'dedup': bool(dedup), 'res': res_, 'cov': [int(v_) for v_ in cov], 'ncov': len(cov),
+              'covdedup': bool(dedup), 'incrview': [int(v_) for v_ in incview.values()] if list(incview.keys()) == list(full.keys()) else [-1],
+              'allmatched': all(any(row[i_] for row in mx) for i_ in range(len(ss))), 'supplied': sum(ff), 'supplieduniq': len(ss),
+              'nexamples': sum(ff), 'nexamplesuniq': len(ss), 'sampling': False, 'store_ok': True}
+        events.append(ev)
+        detail[tid] = {'examples': dict(zip(strings, freqs)), 'options': {'module_level_functions': True}, 'size': None, 'dedup': dedup,
+                       'returned': pats, 'reported': [(t_, tuple(c)) for t_, c in full.items()], 'coverage': ev['cov'],
+                       'incremental_coverage': list(incview.items()), 'n_examples': [sum(ff), len(ss)], 'supplied': [sum(ff), len(ss)]}
+        chk.coverage['replayed_cases'] += 1
         tid += 1
     clean = [{k: v for k, v in e.items() if k not in ('sampling', 'store_ok')} for e in events]
     res, rejected = trace.validate('Trace_RexCoverage', 'Trace_RexCoverage.cfg', clean, name='rex_coverage', workers=4)
